@@ -885,6 +885,21 @@ func (vc *VC) writesOf(st *State, fr *Frame, in ssa.Instruction, arrays map[stri
 		vc.callWrites(st, fr, &x.Call, arrays, allocs, depth, visiting)
 	case *ssa.Go:
 		panic(unsupported("go statement"))
+	case *ssa.Send:
+		if _, field, _ := mapOwner(x.Chan); field != "" {
+			for _, ev := range vc.events {
+				if ev.Kind != "send" {
+					continue
+				}
+				if full, err := vc.qualify(ev.Target, vc.pkgOf(ev.Pkg), 2); err == nil && full == field {
+					for _, gs := range ev.Stmts {
+						if id, ok := gs.Target.(*EIdent); ok {
+							arrays["GG_"+id.Name] = true
+						}
+					}
+				}
+			}
+		}
 	case *ssa.Call:
 		vc.callWrites(st, fr, &x.Call, arrays, allocs, depth, visiting)
 	}
@@ -1370,7 +1385,9 @@ func (vc *VC) runInstrs(st *State, fr *Frame, b *ssa.BasicBlock, start int) {
 		case *ssa.Select:
 			panic(unsupported("select statement"))
 		case *ssa.Send:
-			panic(unsupported("channel send"))
+			// a channel send is modelled as a ghost event only (blocking and the receiver are not modelled)
+			vc.sendEvent(st, fr, x)
+			continue
 		}
 		if vc.step(st, fr, in) {
 			return // path ended (infeasible or forked inside)
@@ -2304,5 +2321,32 @@ func (vc *VC) initGhostAll(st *State, ref string) {
 		st.arr[name] = st.fresh(name, arrSort(SInt, s))
 		st.asm = append(st.asm, sEq(st.arr[name], sStore(a, ref, def)))
 		st.written[name] = true
+	}
+}
+
+// sendEvent fires "on send T.chanfield(owner, value)" events for a send on a channel loaded from a struct field.
+func (vc *VC) sendEvent(st *State, fr *Frame, x *ssa.Send) {
+	ownerV, field, _ := mapOwner(x.Chan)
+	fired := false
+	for _, ev := range vc.events {
+		if ev.Kind != "send" {
+			continue
+		}
+		full, err := vc.qualify(ev.Target, vc.pkgOf(ev.Pkg), 2)
+		if err != nil || ownerV == nil || full != field {
+			continue
+		}
+		extra := map[string]nameEntry{}
+		if len(ev.Vars) > 0 {
+			extra[ev.Vars[0]] = nameEntry{V: vc.value(st, fr, ownerV), T: ownerV.Type()}
+		}
+		if len(ev.Vars) > 1 {
+			extra[ev.Vars[1]] = nameEntry{V: vc.value(st, fr, x.X), T: x.X.Type()}
+		}
+		vc.fireEvent(st, fr, ev, extra, x.Pos())
+		fired = true
+	}
+	if !fired {
+		vc.noteAbstracted("channel send (not modelled)")
 	}
 }
